@@ -155,6 +155,8 @@ def make_hmc(h, d, events, mass="scalar", bounds=None, temperature=True, steps=1
                 Lm[i, j] = h.real(f"Lm_{i}_{j}", pos=(i == j))
         im = Lm @ Lm.T
         ctor_im = im
+        if h.sym:  # Cholesky by contract: returns the factor the matrix was built from (certified)
+            h.patch(ms, cholesky=stubs.make_param_cholesky(h, Lm, "mass.cholesky"))
     chain = hmc.HamiltonianChain(posterior=post, start=start, grad=grad, epsilon=eps, temperature=T,
                                  bounds=None if bounds is None else (bounds[0], bounds[1]),
                                  inverse_mass=ctor_im, display_progress=False)
